@@ -33,6 +33,11 @@ type I2 interface {
 	M2()
 }
 
+// NMap is a defined type whose underlying type is the unnamed map[string]any of the universe: the two are distinct
+// concrete types (a map[string]any value reaching a position declared NMap fails its type assertion), although
+// Go's assignability (reflect.Type.AssignableTo) relates them.
+type NMap map[string]any
+
 // St is the graph-local state used when state handlers are present.
 type St struct{ N int }
 
@@ -45,15 +50,16 @@ const (
 	tI2
 	tAny
 	tMap
+	tNMap
 	nTypes
 )
 
-var typeName = [nTypes]string{"string", "int", "A", "*B", "I1", "I2", "any", "map"}
+var typeName = [nTypes]string{"string", "int", "A", "*B", "I1", "I2", "any", "map", "NMap"}
 
 // dynamic values share the index of their concrete type; dynNil marks "nil interface value".
 const dynNil = -1
 
-var dynAll = []int{tString, tInt, tA, tPB, tMap}
+var dynAll = []int{tString, tInt, tA, tPB, tMap, tNMap}
 
 func isIface(t int) bool { return t == tI1 || t == tI2 || t == tAny }
 
@@ -134,6 +140,8 @@ func value(dyn int, tag string) any {
 		return &B{X: 1}
 	case tMap:
 		return map[string]any{tag: 1}
+	case tNMap:
+		return NMap{tag: 1}
 	}
 	return nil
 }
@@ -152,6 +160,8 @@ func dynOf(v any) string {
 		return "*B"
 	case map[string]any:
 		return "map"
+	case NMap:
+		return "NMap"
 	}
 	return "other"
 }
@@ -233,6 +243,7 @@ func regType[T any](t int) {
 	regLambda[T, I2](t, tI2)
 	regLambda[T, any](t, tAny)
 	regLambda[T, map[string]any](t, tMap)
+	regLambda[T, NMap](t, tNMap)
 	regContainers[T, string](t, tString)
 	regContainers[T, int](t, tInt)
 	regContainers[T, A](t, tA)
@@ -241,6 +252,7 @@ func regType[T any](t int) {
 	regContainers[T, I2](t, tI2)
 	regContainers[T, any](t, tAny)
 	regContainers[T, map[string]any](t, tMap)
+	regContainers[T, NMap](t, tNMap)
 }
 
 func init() {
@@ -252,6 +264,7 @@ func init() {
 	regType[I2](tI2)
 	regType[any](tAny)
 	regType[map[string]any](tMap)
+	regType[NMap](tNMap)
 }
 
 // graphAPI is the non-generic part of *compose.Graph[I,O] (methods promoted from the embedded graph).
